@@ -25,6 +25,9 @@ TLX_c02_btree := die_core
 TLX_c16_ring := die_core
 TLX_c17_lru_splay := die_core
 
+# additional harness TUs (template instantiations split for compile time)
+EXTRA_c04_ps5 := c04_a c04_b c04_c c04_d c04_e
+
 HARNESSES := $(foreach h,$(CONC) $(SEQ),$(if $(wildcard harness/$(h).cpp),$(h)))
 SEQ_FLAVOURS := plain asan
 
@@ -60,7 +63,7 @@ endef
 $(foreach f,$(FLAVOURS),$(eval $(call FLAVOUR_RULES,$(f))))
 
 define LINK_RULE
-$(B)/$(2)/$(1): $(B)/$(2)/$(1).o $(foreach t,$(TLX_$(1)),$(B)/$(2)/tlx_$(t).o) $(B)/rt.o $(B)/san_opts.o
+$(B)/$(2)/$(1): $(B)/$(2)/$(1).o $(foreach e,$(EXTRA_$(1)),$(B)/$(2)/$(e).o) $(foreach t,$(TLX_$(1)),$(B)/$(2)/tlx_$(t).o) $(B)/rt.o $(B)/san_opts.o
 	$(CXX) $$(FLAGS_$(2)) -o $$@ $$^ -lpthread
 endef
 $(foreach h,$(CONC) $(SEQ),$(foreach f,$(FLAVOURS),$(eval $(call LINK_RULE,$(h),$(f)))))
